@@ -245,9 +245,14 @@ private:
         std::vector<std::u32string> shared;
         for (int d = 0; d < nDocs; d++) {
             GenOpts g = go; g.presetNames = shared; Rng dr = wr.sub(("doc" + std::to_string(d)).c_str());
+            // parses that are aborted in the middle of a start tag leave the most scanner state behind: a fifth of the documents
+            // carries duplicated attributes, another tenth is cut off inside a start tag (below)
+            Rng ar = dr.sub("abort"); g.dupAttr = ar.chance(1, 5); bool cutInTag = !g.dupAttr && ar.chance(1, 8);
             WorldGen gen(dr.sub("world"), g); World w = gen.make();
             if (gen.fallback) { g.forceUtf8 = true; WorldGen gen2(dr.sub("world-utf8"), g); w = gen2.make(); if (shared.empty()) shared = gen2.names(); } else if (shared.empty()) shared = gen.names();
             if (fr.chance(1, 4)) { Resource& r = w.res[fr.below(w.res.size())]; mutateBytes(fr, r.core); if (r.padAt > r.core.size()) r.padAt = r.core.size(); r.expand(); }
+            if (cutInTag) { Resource& r = w.res[0]; std::vector<const Span*> tags; for (auto& s : r.spans) if ((s.kind == "stag" || s.kind == "emptytag") && s.e > s.b + 6 && s.e <= r.core.size()) tags.push_back(&s);
+                if (!tags.empty()) { const Span* s = tags[ar.below(tags.size())]; size_t cut = s->b + 3 + ar.below(s->e - s->b - 3); r.core.resize(cut); if (r.padAt > r.core.size()) r.padAt = r.core.size(); r.pad2Count = 0; r.expand(); } }
             Json dj = Json::obj(); dj.set("resources", worldToJson(w)); docs.push(dj);
             std::vector<std::string> nn; for (auto& r : w.res) nn.push_back(r.name); names.push_back(nn);
         }
@@ -313,6 +318,7 @@ private:
                 if (faultedBefore) { o.nontrivial = true; g_run.probe("parse_after_faulted_op"); }
                 if (got.abandoned || !got.exception.empty() || got.fatals) faultedBefore = true;
                 if (faulty) g_run.probe("faulted_op");
+                if (got.dump.find("already specified") != std::string::npos) g_run.probe("aborted_by_duplicate_attribute");
                 if (got.dump != want.dump || got.exception != want.exception || got.abandoned != want.abandoned) {
                     o.violated = true; std::string dd; std::string tok = got.dump == want.dump ? std::string("exception") : firstDiffLine(want.dump, got.dump, dd);
                     o.cls = "history-dependence:" + tok; o.detail = "operation " + std::to_string(opIndex) + " of " + std::to_string(plan.at("ops").a.size()) + " on a reused " + kApiNames[api] + " differs from a fresh parser: " + dd + " exception fresh=<" + want.exception + "> reused=<" + got.exception + "> scanner=" + kScannerNames[cfg.scanner];
